@@ -15,7 +15,8 @@ use crate::position::{
 use crate::text::process_text_attr;
 use crate::transform_attr::TransformAttr;
 use crate::types::{
-    attr_split, attr_split_cycle, extract_elref, fstr, strp, AttrMap, ClassList, OrderIndex,
+    attr_split, attr_split_cycle, extract_elref, fstr, number_list, strp, AttrMap, ClassList,
+    OrderIndex,
 };
 
 use core::fmt::Display;
@@ -881,24 +882,15 @@ impl SvgElement {
                 let mut has_y = false;
 
                 if let Some(points) = self.attrs.get("points") {
-                    let mut idx = 0;
-                    for point_ws in points.split_whitespace() {
-                        for point in point_ws.split(',') {
-                            let point = point.trim();
-                            if point.is_empty() {
-                                continue;
-                            }
-                            let point: f32 = strp(point)?;
-                            if idx % 2 == 0 {
-                                min_x = min_x.min(point);
-                                max_x = max_x.max(point);
-                                has_x = true;
-                            } else {
-                                min_y = min_y.min(point);
-                                max_y = max_y.max(point);
-                                has_y = true;
-                            }
-                            idx += 1;
+                    for (idx, point) in number_list(points)?.into_iter().enumerate() {
+                        if idx % 2 == 0 {
+                            min_x = min_x.min(point);
+                            max_x = max_x.max(point);
+                            has_x = true;
+                        } else {
+                            min_y = min_y.min(point);
+                            max_y = max_y.max(point);
+                            has_y = true;
                         }
                     }
                     if has_x && has_y {
